@@ -57,7 +57,7 @@ GEN = {
                           ("norep", ["P:LEFTSHIFT", "P:A", "R:A", "P:S"], 4, 0, 1, 1), ("absorb", ["P:C", "P:A", "P:B", "R:C"], 4, 0, 0, 0),
                           ("chord", ["P:LEFTCTRL", "P:K", "P:A"], 3, 1, 1, 0), ("basic", ["P:A", "P:S"], 2, 1, 0, 0, 20), ("basic", ["P:A", "R:A"], 1, 0, 1, 1, 70),
                           ("norep", ["P:LEFTSHIFT", "P:A"], 2, 0, 0, 0, 33)],
-    ("C11", "quick"): [("basic", ["P:Z", "P:S", "R:Z"], 3, 0, 2, 0), ("tapchord", ["P:A", "R:A", "P:B"], 3, 0, 2, 0), ("rollover", ["P:A", "P:S", "R:A"], 3, 0, 2, 0), ("basic", ["P:S", "R:S"], 3, 1, 2, 0), ("chord", ["P:LEFTCTRL", "P:K", "R:K"], 3, 0, 2, 0), ("empty-chord", ["P:S", "P:A", "P:B"], 3, 0, 2, 0),
+    ("C11", "quick"): [("tapchord", ["P:A", "R:A", "P:B"], 3, 0, 2, 0), ("rollover", ["P:A", "P:S", "R:A"], 3, 0, 2, 0), ("basic", ["P:S", "R:S"], 3, 1, 2, 0), ("chord", ["P:LEFTCTRL", "P:K", "R:K"], 3, 0, 2, 0), ("empty-chord", ["P:S", "P:A", "P:B"], 3, 0, 2, 0),
                        ("norep", ["P:LEFTSHIFT", "P:S", "P:D"], 3, 0, 2, 0)],
     ("C11", "thorough"): [("rollover", ["P:A", "P:S", "R:A", "R:S"], 4, 0, 3, 0), ("basic", ["P:S", "R:S", "P:A"], 3, 1, 3, 0), ("chord", ["P:LEFTCTRL", "P:K", "R:K", "R:LEFTCTRL"], 4, 0, 2, 0), ("chord", ["P:LEFTCTRL", "P:K"], 2, 2, 2, 0),
                           ("empty-chord", ["P:S", "P:A", "P:B", "R:B"], 4, 0, 2, 0), ("norep", ["P:LEFTSHIFT", "P:S", "P:D", "R:LEFTSHIFT"], 4, 0, 2, 0),
@@ -213,7 +213,8 @@ def walk_traces(exe, wd, prop, tier):
 SCENARIOS = {
     # a key tapped inside one write, a tablet episode, then a repeat whose chord is that key
     "C06": [("tapchord", "P:A R:A On Off P:B to to R:B"), ("tapchord", "P:A R:A On P:Z Off P:B to to"), ("tapchord", "P:B to R:B P:A R:A Off P:B to to")],
-    "C11": [("tapchord", "P:A R:A P:B to to R:B P:A R:A P:B to")],
+    # ... and a pass-through key that a Special mapping lifted is released while the repeat runs; a key an active mapping outputs is pressed
+    "C11": [("tapchord", "P:A R:A P:B to to R:B P:A R:A P:B to"), ("basic", "P:Z P:S to R:Z to to"), ("basic", "P:Z P:S to to R:S to R:Z"), ("basic", "P:A P:S to P:B to to")],
     "C12": [("tapchord", "P:A R:A On Off P:B to to R:B")],
 }
 
